@@ -396,6 +396,10 @@ func VerifC06WorkflowJoin() { c05Mode = 6; c05WorkflowShape(1) }
 //	outer: START -> pre -> sub -> (branch: pre | END) ; inner: START -> p -> x -> END
 type c05NS struct{ Visits int }
 
+type c05CompileCB struct{ n int }
+
+func (c *c05CompileCB) OnFinish(ctx context.Context, info *GraphInfo) { c.n++ }
+
 func c05NestedLoop() {
 	ctx := context.Background()
 	vcfg("fifo", 1)
@@ -405,6 +409,7 @@ func c05NestedLoop() {
 	outerInt := vchoose("outer", 4)    // 0 none, 1 before sub, 2 after sub, 3 after pre
 	desc := []string{"", "inner-before:x ", "inner-after:p "}[innerInt] + []string{"", "before:sub", "after:sub", "after:pre"}[outerInt]
 	loops := vrange("loops", 0, 2) // how often the branch goes back to pre
+	withCompileCB := vchoose("compileCB", 2) == 1 // the enclosing graphs are compiled with a compile callback
 	visitsSeen := map[bool]int{}
 	build := func(log *vLog, interrupts bool, store CheckPointStore) (Runnable[map[string]any, map[string]any], error) {
 		evals := 0
@@ -439,6 +444,9 @@ func c05NestedLoop() {
 			return END, nil
 		}, map[string]bool{"pre": true, END: true}))
 		opts := []GraphCompileOption{WithMaxRunSteps(20)}
+		if withCompileCB {
+			opts = append(opts, WithGraphCompileCallbacks(&c05CompileCB{}))
+		}
 		if interrupts && levels == 2 {
 			opts = append(opts, WithCheckPointStore(store))
 		}
@@ -458,6 +466,9 @@ func c05NestedLoop() {
 			_ = top.AddEdge(START, "mid")
 			_ = top.AddEdge("mid", END)
 			var topts []GraphCompileOption
+			if withCompileCB {
+				topts = append(topts, WithGraphCompileCallbacks(&c05CompileCB{}))
+			}
 			if interrupts {
 				topts = append(topts, WithCheckPointStore(store))
 			}
